@@ -428,6 +428,15 @@ namespace
                     auto v = sh.of(c);
                     if (!v.empty()) do_free(v[(size_t)mod(arg(o, 2), (int64_t)v.size())]);
                 }
+                else if (k == 3 && kind == 0)
+                {
+                    // C API reset: pool_init + pool_engage over the same zone
+                    sh.live.clear();
+                    pool_init(&ph);
+                    pool_engage(&ph, zone.get(), zsize, elsz);
+                    probe("pool_reinit");
+                    tr.ev("re-init");
+                }
                 else if (k == 3 && kind == 1)
                 {
                     // the pool is initialised again over the same zone (a reset): whatever was handed out is forgotten by
